@@ -67,7 +67,7 @@ Lemma items_to_bytes_tie : forall items, SrcStage1.items_to_bytes items = LineTa
 Proof.
   unfold SrcStage1.items_to_bytes. induction items as [|[ln bc] r IH]; [reflexivity|].
   cbn [map concat app LineTable.items_to_bytes fst snd]. rewrite <- IH. unfold bytes_of. cbn [forallb].
-  rewrite land_255. unfold byte_ok.
+  rewrite ?land_255. unfold byte_ok.   (* `& 255` or `% 256` *)
   assert (Hm : (0 <=? ln mod 256) && (ln mod 256 <=? 255) = true) by lia. rewrite Hm.
   destruct ((0 <=? bc) && (bc <=? 255)); cbn [andb]; [|reflexivity].
   destruct (forallb _ _); reflexivity.
